@@ -606,11 +606,85 @@ def check_c15(tier):
                         V.violation(dict(ex, call_hierarchy=kind, fixture=nm, range=rg, text_at_range=got,
                                          parameter_positions=sorted(want_pos)),
                                     "a call-hierarchy range does not cover exactly the identifier that names the fixture there")
+
+    # ---- published diagnostics follow the text: after edits that MOVE the fixtures (lines inserted / removed above, columns shifted
+    # by `async`, blocks reordered) every range covers, in the LATEST text, the identifier its message is about
+    import re as _re
+    DOC = ("import pytest\n\n\n@pytest.fixture\ndef alpha(beta):\n    return beta\n\n\n@pytest.fixture\ndef beta(alpha):\n    return alpha\n\n\n"
+           "@pytest.fixture(scope=\"session\")\ndef wide(narrow):\n    return narrow\n\n\n@pytest.fixture\ndef narrow():\n    return 1\n\n\n"
+           "def test_body():\n    x = narrow\n    return x\n")
+    blocks = DOC.split("\n\n\n")
+
+    def reorder(perm):
+        return "\n\n\n".join([blocks[0]] + [blocks[i] for i in perm])
+
+    EDITS = {
+        "lines_above": lambda t: "# moved\n\n\n" + t,
+        "lines_removed": lambda t: t.replace("import pytest\n\n\n", "import pytest\n", 1),
+        "async_defs": lambda t: t.replace("\ndef alpha", "\nasync def alpha").replace("\ndef wide", "\nasync def wide"),
+        "in_class": lambda t: t.replace("def test_body():\n    x = narrow\n    return x\n", "class TestK:\n    def test_body(self):\n        x = narrow\n        return x\n"),
+        "cycle_last": lambda t: reorder([3, 4, 5, 1, 2]),
+        "reversed": lambda t: reorder([4, 3, 2, 1, 5]),
+        "crlf": lambda t: t.replace("\n", "\r\n"),
+    }
+    names = sorted(EDITS)
+    seqs = [[a] for a in names] + [[a, b] for a in names for b in names if a != b and (tier != "quick" or (names.index(a) + names.index(b)) % 3 == 0)]
+
+    def diag_session(job):
+        n, seq = job
+        root = os.path.join(base, "d%d" % n)
+        os.makedirs(root, exist_ok=True)
+        path = os.path.join(root, "test_d.py")
+        srv = lsp.Server()
+        try:
+            srv.initialize(root)
+            steps = [("open", DOC, srv.did_open(path, DOC))]
+            ver = 2
+            for e in seq + ["back"]:
+                t = DOC if e == "back" else EDITS[e](DOC)
+                steps.append((e, t, srv.did_change(path, t, version=ver)))
+                ver += 1
+            return {"steps": steps}
+        except (lsp.ServerDied, lsp.Timeout) as e:
+            return {"error": str(e)}
+        finally:
+            srv.close()
+            shutil.rmtree(root, ignore_errors=True)
+
+    n_diag = 0
+    for seq, r in zip(seqs, lsp.run_parallel(list(enumerate(seqs)), diag_session, workers=8)):
+        if r is None or "__exception__" in r:
+            raise C.ToolError("LSP session failed: %r" % (r,))
+        if "error" in r:
+            V.violation({"edits": seq, "error": r["error"]}, "server died / no diagnostics while a document was being edited")
+            continue
+        for e, t, diags in r["steps"]:
+            V.count()
+            n_diag += 1
+            V.nontriv(("diagmove", e))
+            ls = t.replace("\r\n", "\n").split("\n")
+            ex = {"edits": seq, "step": e, "text": t, "published": diags}
+            if sorted(d.get("code") for d in diags) != ["circular-dependency", "scope-mismatch", "undeclared-fixture"]:
+                V.violation(ex, "the findings of the latest text are not published exactly once each (three causes, three findings)")
+                continue
+            for d in diags:
+                rg = d["range"]
+                ok = rg["start"]["line"] == rg["end"]["line"] and rg["start"]["line"] < len(ls)
+                got = ls[rg["start"]["line"]][rg["start"]["character"]:rg["end"]["character"]] if ok else None
+                if d["code"] == "undeclared-fixture":
+                    want, where = {"narrow"}, "x = narrow"
+                elif d["code"] == "scope-mismatch":
+                    want, where = {"wide"}, "def wide("
+                else:
+                    want, where = {"alpha", "beta"}, "def "
+                if got not in want or where not in ls[rg["start"]["line"]]:
+                    V.violation(dict(ex, finding=d, text_at_range=got),
+                                "a published diagnostic's range does not cover, in the latest text, the identifier the finding is about")
     shutil.rmtree(base, ignore_errors=True)
     V.sample({"construct": cases[0]["c"], "line": "".join(piece_text(p) for p in (cases[0]["line"]["before"] or [])) + "...",
               "expect": cases[0]["expect"]})
     cov = {"states": meta["distinct"], "transitions": meta["transitions"],
-           "traces_validated_against_impl": len(results) + len(fcases), "exhaustive": True,
+           "traces_validated_against_impl": len(results) + len(fcases) + n_diag, "exhaustive": True,
            "tlc": {"module": "Positions", "wall_s": meta["wall_s"]}}
     return V.finish(
         coverage_extra=cov,
